@@ -49,7 +49,7 @@ CHECKS = [
              'point/line/text and any compound of them (induction, any depth) contains a rotated position exactly when the original contained the unrotated one; class, operator and include flags '
              'are preserved, area unchanged, rotating back restores every parameter (all classes incl. polygons: vertex map). Translation: membership follows a translation for EVERY class '
              '(polygons included) and the bounding box of any region expression moves by exactly the integer shift (incl. the exact sqrt-floor ellipse box). '
-             'NOT theorems: rotation invariance of the even-odd answer for polygons (partial theorem carries polygonFree), mask arrays unchanged under translation (checked on the real code).',
+             'The mask of ANY region expression is unchanged by a whole-pixel translation and its box moves with it (mask_shift, center/subpixels, polygons via translation invariance of the even-odd rule). NOT a theorem: rotation invariance of the even-odd answer for polygons (partial theorem carries polygonFree); exact-mode masks under translation are checked on the real code.',
      'note': 'Trusted: Lean kernel/Mathlib/3 std axioms; hand model Region.lean (rotate/shift) tied by the correspondence run: rotated parameters within 1e-9*scale of the exact model values, '
              'membership compared outside a rounding band; original object fingerprinted before/after.'},
     {'property_id': 'C14',
@@ -143,6 +143,12 @@ CHECKS = [
              'crtf_fixed_point, global default / inline override, coord= frame selection, prefix rules, units required, box forms agree — for lists of any length. The real regex tokenisation is tied by correspondence only. '
              'Open: F19 (shared with C09) and F31 (labelcolor dropped on write; patch would break a stored expected test file).',
      'note': 'Trusted: Lean kernel + 3 std axioms; astropy frame transforms/unit parsing as parameters. F6/F7/F20/F21/F32/F33 fixed in /repo.'},
+    {'property_id': 'C13',
+     'technique': 'Lean 4 frame theorem over a heap-effect model + decision over mutating-site and module-state tables regenerated from the source AST on every run; dynamic net: fingerprinted operation sequences, line tracer on unknown sites, fresh interpreters with other PYTHONHASHSEED (by builder)',
+     'text': 'PARTIAL. Proved: frame_general (a program whose writes all target objects it allocated itself leaves every pre-existing/input-reachable object unchanged, any heap, induction), history_independent (results depending only on arguments and on module state no step writes are equal after any call sequence), '
+             'and — decided over the GENERATED tables — no in-scope mutating site has an input receiver (sites_ok), module-level iterators are stateless or re-created per call, the registry is written only at import. '
+             'The receiver classification itself is a static approximation by the extractor (trusted), unknown sites are validated dynamically (>= 20 hits, never aliasing an input); the fingerprint / repeat / fresh-interpreter runs are the second net.',
+     'note': 'Partial: tools/c13_effects.py classification is trusted, not proved; C-level and astropy-internal mutations are seen by fingerprints only. Trusted: Lean kernel + 3 std axioms. F5/F6 fixed in /repo (193fdcf, 90d029a).'},
 ]
 
 _PENDING = 'check not built yet in this session (see DESIGN.md build order); not a statement that the technique cannot apply'
